@@ -887,6 +887,8 @@ pub trait DynShape: Sync + Send {
     fn from_bytes(&self, b: &[u8]) -> Result<ReadOut, FErr>;
     fn from_mut_bytes(&self, b: &mut [u8]) -> Result<ReadOut, FErr>;
     fn from_wrapped_bytes(&self, b: &[u8]) -> Result<ReadOut, FErr>;
+    /// verdict of FlatWrap::from_wrapped_bytes only
+    fn wrapped_only(&self, b: &[u8]) -> Result<(), FErr>;
     /// from_bytes / from_mut_bytes without touching the result (verdict only)
     fn from_bytes_only(&self, b: &[u8]) -> Result<(), FErr>;
     /// Map and report where the mapped reference lies: (size_of_val, as_bytes().len(), offset of as_bytes() from the
@@ -975,6 +977,9 @@ impl<T: Shape + ?Sized> DynShape for Of<T> {
     fn from_wrapped_bytes(&self, b: &[u8]) -> Result<ReadOut, FErr> {
         let w = FlatWrap::<T, &[u8]>::from_wrapped_bytes(b)?;
         Ok(read_out(&*w, b.as_ptr() as usize))
+    }
+    fn wrapped_only(&self, b: &[u8]) -> Result<(), FErr> {
+        FlatWrap::<T, &[u8]>::from_wrapped_bytes(b).map(|_| ()).map_err(FErr::from)
     }
     fn new_in_place(&self, b: &mut [u8], v: &Value, route: &[u8], f: Session) -> Result<(), FErr> {
         let base = b.as_ptr() as usize;
@@ -1110,6 +1115,9 @@ impl<T: Shape + ?Sized> DynShape for OfIo<T> {
     }
     fn from_wrapped_bytes(&self, b: &[u8]) -> Result<ReadOut, FErr> {
         self.0.from_wrapped_bytes(b)
+    }
+    fn wrapped_only(&self, b: &[u8]) -> Result<(), FErr> {
+        self.0.wrapped_only(b)
     }
     fn new_in_place(&self, b: &mut [u8], v: &Value, route: &[u8], f: Session) -> Result<(), FErr> {
         self.0.new_in_place(b, v, route, f)
